@@ -138,6 +138,23 @@ func (c01) Gen(rng *rand.Rand, tier string, idx int) Case {
 		genSQLWindow(rng, &c, sz, o)
 		return c
 	}
+	if idx%12 == 10 {
+		// IDLETIMEOUT: idle and busy ticker updates between the rows (forced, natural, live timestamps)
+		return idleCase(rng, "tumbling")
+	}
+	if idx%12 == 9 {
+		// ALLOWEDLATENESS > 0: fired intervals stay open for late rows and are purged when the allowance ends; the rows
+		// of the pending intervals (boundary timestamps among them) must survive the purge
+		late := []int64{1, size / 2, size, 3 * size}[rng.Intn(4)]
+		if late == 0 {
+			late = 1
+		}
+		c.Cfg = [][]string{{"kind", "tumbling"}, {"mode", "et"}, {"size", itoa(size)}, {"ooo", itoa(ooo)}, {"late", itoa(late)}, {"now", "0"}}
+		genLateOps(rng, &c, size, ooo, late)
+		bigEpoch(rng, &c)
+		c.Stat = append(c.Stat, "event-time", "lateness>0")
+		return c
+	}
 	if rng.Intn(6) == 0 {
 		// processing time: explicit timestamps through TsProp, Trigger() as the timer
 		c.Cfg = [][]string{{"kind", "tumbling"}, {"mode", "pt"}, {"size", itoa(size)}, {"ooo", "0"}, {"late", "0"}, {"now", "0"}}
